@@ -57,6 +57,7 @@ Fixpoint shift_ops (sh : list shift) (ops : list op) (line : Z) : list op :=
   | [] => []
   | ONewline :: r => ONewline :: shift_ops sh r (line + 1)
   | OMap gc si ol oc nm :: r => OMap (gc + delta_at sh line gc) si ol oc nm :: shift_ops sh r line
+  | ONull gc :: r => ONull (gc + delta_at sh line gc) :: shift_ops sh r line
   end.
 
 (* generated columns within a line are non-decreasing, starting from [c]
@@ -66,6 +67,7 @@ Fixpoint ops_sorted (ops : list op) (c : Z) : Prop :=
   | [] => True
   | ONewline :: r => ops_sorted r 0
   | OMap gc _ _ _ _ :: r => c <= gc /\ ops_sorted r gc
+  | ONull gc :: r => c <= gc /\ ops_sorted r gc
   end.
 
 (* columns within a line are non-decreasing and >= 0 *)
@@ -216,12 +218,67 @@ Lemma fin_ops_spec sh : forall ops line c pd s0 rest,
   fin_ops ops line pd (s0 :: rest) = Some (shift_ops sh ops line).
 Proof.
   induction ops as [|o ops IH]; intros line c pd s0 rest Hs Hsl Ho HI; [reflexivity|].
-  destruct o as [|gc si ol oc nm]; cbn [fin_ops shift_ops ops_sorted] in *.
+  destruct o as [|gc si ol oc nm|gc]; cbn [fin_ops shift_ops ops_sorted] in *.
   - (* newline *)
     rewrite (IH (line + 1) 0 0 s0 rest Hs Hsl Ho); [reflexivity|].
     intros l' gc' Hpos. rewrite (HI l' gc') by lia.
     replace (l' =? line) with false by lia. destruct (l' =? line + 1); reflexivity.
   - (* mapping *)
+    destruct Ho as [Hc Ho].
+    destruct (cross_spec (line, gc) rest s0 (length (s0 :: rest)) false) as
+      (popped & rest' & Hr & Hall & Hhd & Hcross); [cbn [length]; lia|].
+    rewrite Hcross. cbn [orb].
+    assert (Hs' : sorted_sh rest') by (rewrite Hr in Hs; eapply sorted_sh_app_r; exact Hs).
+    assert (Hsp : sorted_sh popped) by (rewrite Hr in Hs; eapply sorted_sh_app_l; exact Hs).
+    assert (Hsl' : Forall same_line rest').
+    { rewrite Hr in Hsl. apply Forall_app in Hsl. apply Hsl. }
+    (* delta at this mapping *)
+    assert (Hhere : forall gc', gc <= gc' ->
+              delta_at sh line gc' = delta_acc (delta_acc pd popped line gc') rest' line gc').
+    { intros gc' Hg. rewrite (HI line gc') by lia. rewrite Z.eqb_refl, Hr, delta_acc_app. reflexivity. }
+    assert (Hlater : forall l' gc', line < l' -> delta_at sh l' gc' = delta_acc 0 rest' l' gc').
+    { intros l' gc' Hl. rewrite (HI l' gc') by lia. replace (l' =? line) with false by lia.
+      rewrite Hr, delta_acc_app, (popped_later_line popped line gc) by assumption. reflexivity. }
+    assert (Hnow : delta_at sh line gc = delta_acc pd popped line gc).
+    { rewrite Hhere by lia. apply delta_acc_none. apply rest_not_applies; assumption. }
+    destruct popped as [|p1 pt].
+    + (* no boundary crossed *)
+      cbn [negb last]. cbn [delta_acc] in Hnow. rewrite Hnow.
+      rewrite (IH line gc pd s0 rest' Hs' Hsl' Ho); [reflexivity|].
+      intros l' gc' [[-> Hg]|Hl].
+      * rewrite Hhere by lia. rewrite Z.eqb_refl. reflexivity.
+      * rewrite Hlater by lia. replace (l' =? line) with false by lia. reflexivity.
+    + (* crossed: the last crossed shift decides *)
+      cbn [negb].
+      set (s := last (p1 :: pt) s0) in *.
+      assert (Hin : In s (p1 :: pt)).
+      { subst s. clear. generalize p1. induction pt as [|c t IHt]; intro b0; [left; reflexivity|].
+        change (last (b0 :: c :: t) s0) with (last (c :: t) s0). right. apply IHt. }
+      assert (Hsame : same_line s).
+      { rewrite Hr in Hsl. apply Forall_app in Hsl. destruct Hsl as [Hsl1 _].
+        rewrite Forall_forall in Hsl1. apply Hsl1, Hin. }
+      unfold same_line in Hsame. change (fst (snd s)) with (fst (sh_after s)).
+      change (fst (fst s)) with (fst (sh_before s)).
+      assert (Hpop : forall acc gc', gc <= gc' ->
+                delta_acc acc (p1 :: pt) line gc' =
+                if fst (sh_before s) =? line then sh_delta s else acc).
+      { intros acc gc' Hg. subst s.
+        apply (popped_same_line (p1 :: pt) line gc acc gc' s0); try assumption. discriminate. }
+      rewrite Hpop in Hnow by lia.
+      rewrite <- Hsame.
+      destruct (fst (sh_before s) =? line) eqn:E; cbn [negb].
+      * rewrite Z.eqb_refl. cbn [negb]. cbv zeta.
+        change (snd (snd s) - snd (fst s)) with (sh_delta s). rewrite Hnow.
+        rewrite (IH line gc (sh_delta s) s rest' Hs' Hsl' Ho); [reflexivity|].
+        intros l' gc' [[-> Hg]|Hl].
+        -- rewrite Hhere by lia. rewrite Hpop by lia. rewrite Z.eqb_refl. reflexivity.
+        -- rewrite Hlater by lia. replace (l' =? line) with false by lia. reflexivity.
+      * rewrite Hnow.
+        rewrite (IH line gc pd s rest' Hs' Hsl' Ho); [reflexivity|].
+        intros l' gc' [[-> Hg]|Hl].
+        -- rewrite Hhere by lia. rewrite Hpop by lia. rewrite Z.eqb_refl. reflexivity.
+        -- rewrite Hlater by lia. replace (l' =? line) with false by lia. reflexivity.
+  - (* mapping without original position: same argument *)
     destruct Ho as [Hc Ho].
     destruct (cross_spec (line, gc) rest s0 (length (s0 :: rest)) false) as
       (popped & rest' & Hr & Hall & Hhd & Hcross); [cbn [length]; lia|].
@@ -286,9 +343,10 @@ Proof. reflexivity. Qed.
 Lemma shift_ops_id sh : (forall l c, delta_at sh l c = 0) ->
   forall ops line, shift_ops sh ops line = ops.
 Proof.
-  intros H. induction ops as [|[|gc si ol oc nm] ops IH]; intro line; cbn [shift_ops].
+  intros H. induction ops as [|[|gc si ol oc nm|gc] ops IH]; intro line; cbn [shift_ops].
   - reflexivity.
   - rewrite IH. reflexivity.
+  - rewrite H, Z.add_0_r, IH. reflexivity.
   - rewrite H, Z.add_0_r, IH. reflexivity.
 Qed.
 
@@ -335,9 +393,10 @@ Definition shift_abs (sh : list shift) (a : abs) : abs :=
 Lemma abs_of_shift_ops sh : forall ops line,
   abs_of (shift_ops sh ops line) line = map (shift_abs sh) (abs_of ops line).
 Proof.
-  induction ops as [|[|gc si ol oc nm] ops IH]; intro line; cbn [shift_ops abs_of map].
+  induction ops as [|[|gc si ol oc nm|gc] ops IH]; intro line; cbn [shift_ops abs_of map].
   - reflexivity.
   - apply IH.
+  - rewrite IH. reflexivity.
   - rewrite IH. reflexivity.
 Qed.
 
@@ -390,6 +449,7 @@ Fixpoint shift_ops_le (sh : list shift) (ops : list op) (line : Z) : list op :=
   | [] => []
   | ONewline :: r => ONewline :: shift_ops_le sh r (line + 1)
   | OMap gc si ol oc nm :: r => OMap (gc + delta_at_le sh line gc) si ol oc nm :: shift_ops_le sh r line
+  | ONull gc :: r => ONull (gc + delta_at_le sh line gc) :: shift_ops_le sh r line
   end.
 
 (* no mapping sits exactly at the Before position of a substitution (the first,
@@ -399,6 +459,8 @@ Fixpoint side_condition_from (sh : list shift) (ops : list op) (line : Z) : Prop
   | [] => True
   | ONewline :: r => side_condition_from sh r (line + 1)
   | OMap gc _ _ _ _ :: r =>
+    (forall s, In s (tl sh) -> sh_before s <> (line, gc)) /\ side_condition_from sh r line
+  | ONull gc :: r =>
     (forall s, In s (tl sh) -> sh_before s <> (line, gc)) /\ side_condition_from sh r line
   end.
 
@@ -426,10 +488,14 @@ Lemma shift_ops_le_eq s0 rest : sh_delta s0 = 0 -> forall ops line,
   side_condition_from (s0 :: rest) ops line ->
   shift_ops_le (s0 :: rest) ops line = shift_ops (s0 :: rest) ops line.
 Proof.
-  intros H0. induction ops as [|[|gc si ol oc nm] ops IH]; intros line Hsc;
+  intros H0. induction ops as [|[|gc si ol oc nm|gc] ops IH]; intros line Hsc;
     cbn [shift_ops_le shift_ops side_condition_from] in *.
   - reflexivity.
   - rewrite IH by exact Hsc. reflexivity.
+  - destruct Hsc as [Hh Hsc]. rewrite IH by exact Hsc. f_equal. f_equal. f_equal.
+    unfold delta_at_le, delta_at. cbn [delta_acc_le delta_acc]. rewrite H0.
+    rewrite delta_acc_le_eq by exact Hh.
+    destruct (applies_le s0 line gc), (applies s0 line gc); reflexivity.
   - destruct Hsc as [Hh Hsc]. rewrite IH by exact Hsc. f_equal. f_equal. f_equal.
     unfold delta_at_le, delta_at. cbn [delta_acc_le delta_acc]. rewrite H0.
     rewrite delta_acc_le_eq by exact Hh.
